@@ -350,4 +350,117 @@ example : resolveToSignature [("ro", ⟨.integer, 1⟩), ("x", ⟨.real, 2⟩), 
         .arg 1 (.mismatchedScalar .real .integer), .arg 2 (.undeclared "nope")]) := by
   decide
 
+/-! ## The PRAGMA EXTERN route -/
+
+theorem sigOfPragma_ok_valid (isUser : String → Bool) (p : ExtPragma) (s : Signature)
+    (h : sigOfPragma isUser p = .ok s) : ValidSig isUser s := by
+  unfold sigOfPragma at h
+  split at h
+  · cases h
+  · split at h
+    · cases h
+    · cases h
+    · cases h
+    · split at h
+      · cases h
+      · cases h
+      · rename_i toks _
+        cases hs : sigFromTokens isUser toks with
+        | ok s' =>
+          simp [hs] at h; subst h
+          exact sigFromTokens_ok_valid isUser toks s' hs
+        | error e => cases e <;> simp [hs] at h
+
+/-- **C31 (PRAGMA EXTERN route)**: every entry of a successfully converted extern map has a user-identifier
+name and a valid signature -/
+theorem convertMap_ok_valid (isUser : String → Bool) (m : List (Option String × ExtPragma))
+    (l : List (String × Signature)) (h : convertMap isUser m = .ok l) :
+    ∀ e ∈ l, isUser e.1 = true ∧ ValidSig isUser e.2 := by
+  induction m generalizing l with
+  | nil => simp [convertMap] at h; subst h; simp
+  | cons x xs ih =>
+    obtain ⟨k, p⟩ := x
+    cases k with
+    | none => simp [convertMap] at h
+    | some n =>
+      unfold convertMap at h
+      by_cases hu : isUser n = true
+      · simp only [hu, Bool.not_true, Bool.false_eq_true, if_false] at h
+        cases hp : sigOfPragma isUser p with
+        | error e => simp [hp] at h
+        | ok s =>
+          simp only [hp] at h
+          cases hr : convertMap isUser xs with
+          | error e => simp [hr] at h
+          | ok l' =>
+            simp [hr] at h; subst h
+            intro e he
+            simp at he
+            rcases he with rfl | he
+            · exact ⟨hu, sigOfPragma_ok_valid isUser p s hp⟩
+            · exact ih l' hr e he
+      · simp [hu] at h
+
+/-! ## Resolution and memory accesses agree -/
+
+/-- region named by a resolved argument / by a resolved argument that may be written -/
+def Resolved.region : Resolved → Option String
+  | .vector n _ _ => some n
+  | .memRef n _ _ _ => some n
+  | .immediate _ _ => none
+
+def Resolved.written : Resolved → Option String
+  | .vector n _ true => some n
+  | .memRef n _ _ true => some n
+  | _ => none
+
+theorem slotFits_access (rs : Regions) (p : ExtParam) (a : Arg) (r : Resolved) (h : SlotFits rs p a r) :
+    r.region = a.region ∧ r.written = (if p.mutable then a.region else none) := by
+  cases h <;> cases hm : p.mutable <;> simp_all [Resolved.region, Resolved.written, Arg.region]
+
+theorem paramOutcomes_access (rs : Regions) (i : Nat) (ps : List ExtParam) (as : List Arg)
+    (os : List (Except CallArgErr Resolved)) (h : ParamOutcomes rs i ps as os) (he : errs os = []) :
+    (oks os).filterMap Resolved.region = (accessLoop as ps).1 ∧
+    (oks os).filterMap Resolved.written = (accessLoop as ps).2 := by
+  induction h with
+  | nil i => simp [oks, accessLoop]
+  | cons i p ps a as o os ho _ ih =>
+    cases ho with
+    | fails e _ => simp [errs] at he
+    | fits r hr =>
+      simp only [errs] at he
+      obtain ⟨h1, h2⟩ := ih he
+      obtain ⟨g1, g2⟩ := slotFits_access rs p a r hr
+      simp only [oks, accessLoop, List.head?_cons, List.tail_cons, List.filterMap_cons, g1, g2, h1, h2]
+      cases ha : a.region with
+      | none => simp
+      | some n => by_cases hm : p.mutable = true <;> simp [hm]
+
+/-- **C31 (resolution vs memory accesses)**: for a CALL that resolves, the regions `default_memory_accesses`
+reports as read are exactly the regions of the resolved arguments, and the ones it reports as written are
+exactly those of the resolved arguments marked mutable (the return slot and the `mut` parameters). -/
+theorem C31_accesses_of_resolved (rs : Regions) (s : Signature) (args : List Arg) (out : List Resolved)
+    (h : resolveToSignature rs s args = .ok out) :
+    out.filterMap Resolved.region = (callAccesses s args).1 ∧
+    out.filterMap Resolved.written = (callAccesses s args).2 := by
+  have hspec := resolveToSignature_spec rs s args
+  rw [h] at hspec
+  rcases hspec with ⟨_, h'⟩ | ⟨_, os, hos, ⟨he, ho⟩ | ⟨_, h'⟩⟩
+  · cases h'
+  · have : out = oks os := by injection ho
+    subst this
+    cases hos with
+    | noReturn _ _ hret hp =>
+      simp only [callAccesses, hret]
+      exact paramOutcomes_access rs 0 _ _ _ hp he
+    | withReturn t a as o os' hret ho' hp =>
+      cases ho' with
+      | fails e _ => simp [errs] at he
+      | fits r hr =>
+        simp only [errs] at he
+        obtain ⟨h1, h2⟩ := paramOutcomes_access rs 0 _ _ _ hp he
+        simp only [callAccesses, hret, oks]
+        cases hr <;> simp [Resolved.region, Resolved.written, Arg.region, h1, h2]
+  · cases h'
+
 end QV.C31
